@@ -57,9 +57,14 @@ def install_ds_funnel() -> None:
 # ---------------------------------------------------------------------------
 # canonical digests (timestamps and time-derived stamps excluded)
 
+# not part of the state key: times, scratch paths (differ per search
+# worker) and the recency lists (`latest_state_tasks`: the order of tasks
+# that change state in the same batch follows object addresses). All of them
+# ARE compared between the client mirror and the scheduler's store.
 TIME_FIELDS = {'stamp', 'time', 'last_updated', 'submitted_time',
                'started_time', 'finished_time', 'estimated_finish_time',
-               'mean_elapsed_time'}
+               'mean_elapsed_time', 'job_log_dir', 'workflow_log_dir',
+               'latest_state_tasks', 'host'}
 
 
 def _canon_msg(msg) -> tuple:
@@ -216,9 +221,6 @@ class StoreReflectsPool(Monitor):
             if self.mirror is None:
                 self.mirror = deepcopy(DATA_TEMPLATE)
                 self.delta_times = {k: 0.0 for k in DATA_TEMPLATE}
-                first = True
-            else:
-                first = False
             for fd, sub in msg.ListFields():
                 key = fd.name
                 if sub.reloaded:
@@ -228,11 +230,6 @@ class StoreReflectsPool(Monitor):
                     else:
                         self.mirror[key].clear()
                     self.delta_times[key] = 0.0
-                elif first:
-                    self.bad.append(self.viol(
-                        'first-batch-not-a-snapshot',
-                        f'the first published batch carries a partial '
-                        f'{key} delta (no full snapshot)'))
                 dtime = getattr(sub, 'time', 0.0)
                 if dtime < self.delta_times[key]:
                     self.bad.append(self.viol(
@@ -300,7 +297,10 @@ class StoreReflectsPool(Monitor):
         if w.schd is not None and getattr(w.schd, 'server', None) is not None:
             self._drain(w)
         out, self.bad = self.bad, []
-        if w.running and not out:
+        if w.running and not out and ev[0] != 'boot':
+            # (the start-up batches are judged after the first transition, so
+            # that a start-up defect does not leave an exploration without a
+            # single transition)
             dsm = w.schd.data_store_mgr
             if dsm.publish_pending:
                 COUNTS.bump('boundaries with an unpublished batch')
